@@ -358,6 +358,11 @@ class Tag(Node, metaclass=_TagMeta):
                         expr.append("(%s)" % m.group(1))
                     elif x:
                         expr.append(repr(x))
+                if len(expr) > 1:
+                    # a mixture of text and expressions is a string
+                    expr = [
+                        "str%s" % x if x.startswith("(") else x for x in expr
+                    ]
                 self.parsed_attributes[key] = " + ".join(expr) or repr("")
             elif key in nonexpressions:
                 if re.search(r"\${.+?}", self.attributes[key]):
